@@ -16,13 +16,14 @@ for d in sorted(glob.glob("seeded/*/")):
     tv = tempfile.mkdtemp(prefix="seedev-"); os.makedirs(tv + "/evidence"); shutil.copy("known_findings.json", tv)
     caught, lines = [], []
     try:
-        for p in props:
-            o = subprocess.run(["bin/stfscheck", "-p", p, "-tier", "quick", "-verif", tv], capture_output=True, text=True)
-            if o.returncode != 0:
-                caught.append(p)
-                for l in o.stdout.splitlines():
-                    t = l.strip()
-                    if t.startswith(("VIOLATED", "UNDECIDED", "BROKEN", "UNRESOLVED")): lines.append(t[:260])
+        o = subprocess.run(["bin/stfscheck", "-p", "all", "-tier", "quick", "-verif", tv], capture_output=True, text=True)
+        import re
+        for l in o.stdout.splitlines():
+            t = l.strip()
+            m = re.match(r"result (C\d+): .* exit=(\d+)", t)
+            if m and m.group(2) != "0" and m.group(1) in props: caught.append(m.group(1))
+            if t.startswith(("VIOLATED", "UNDECIDED", "BROKEN", "UNRESOLVED")): lines.append(t[:260])
+        if o.returncode == 2 and not caught and "BROKEN" in o.stdout: lines.append("BROKEN load")
     finally:
         subprocess.run(["git", "-C", "/repo", "checkout", "--", "."]); subprocess.run(["git", "-C", "/repo", "clean", "-qfd"])
         shutil.rmtree(tv)
